@@ -1,0 +1,11 @@
+//go:build verif
+
+package transportoptions
+
+// VerifStored returns the number of channels with stored transport options
+// (verification hook, only built with -tags verif).
+func (to *TransportOptions) VerifStored() int {
+	to.optionsLk.RLock()
+	defer to.optionsLk.RUnlock()
+	return len(to.options)
+}
